@@ -385,17 +385,23 @@ def gen_link(rng, kind, rep, nmoves):
             if np.linalg.norm(v - np.dot(v, k) * k) > 0.2 * size:
                 break
             case["leader"] = _pt(rng, size, rep)
-        angles, total = [], 0.0
+        angles, total, drift = [], 0.0, []
         for _ in range(nmoves):
             while True:
                 step = rng.choice([-1, 1]) * 10 ** rng.uniform(-3, 1) if rng.random() < 0.7 else rng.uniform(-10, 10)
+                if rng.random() < 0.3:
+                    step = 0.0 if rng.random() < 0.7 else -total  # a move without turning / back to the start angle
                 cand = total + step
                 wrapped = math.remainder(cand, 2 * math.pi)
                 if abs(cand) < 10 and abs(abs(wrapped) - math.pi) > 0.05:
                     break
             total = cand
             angles.append(float(total))
+            # the leader may also slide along the axis or change its radius: neither turns it
+            u = rng.random()
+            drift.append([rng.uniform(-1, 1) * size, 1.0] if u < 0.2 else [0.0, rng.uniform(0.5, 2.0)] if u < 0.4 else [0.0, 1.0])
         case["angles"] = angles
+        case["drift"] = drift
     else:
         case["normal"] = _dir(rng)
         case["origin"] = _vec(rng, size)
@@ -523,7 +529,7 @@ class _Clamp:
         self.ambiguous = ambiguous  # creation point -> True if 'the closest point' is ill-conditioned there
 
 
-def _judge_clamp(ctx, case, clamp, oracle, create_point, ccls, kind, sweep):
+def _judge_clamp(ctx, case, clamp, oracle, create_point, ccls, kind, sweep, caller_arrays=None):
     t = _tols(case["size"])
     pos = arr(clamp.position)
     cp = arr(create_point)
@@ -538,7 +544,7 @@ def _judge_clamp(ctx, case, clamp, oracle, create_point, ccls, kind, sweep):
         ctx.count(f"judged:fresh-on:{kind}")
         err = geom.dist(pos, cp)
         _margin(f"{mk}:fresh-on", err / t["on"])
-        if err > t["on"]:
+        if not (err <= t["on"]):
             ctx.violation(f"{label}:fresh-position-differs-from-creation-point",
                           f"created ON the constraint at {cp.tolist()} but reports {pos.tolist()} (|diff|={err:.3e} > "
                           f"{t['on']:.1e}); case {_brief(case)}")
@@ -547,7 +553,7 @@ def _judge_clamp(ctx, case, clamp, oracle, create_point, ccls, kind, sweep):
         ctx.count(f"judged:fresh-off:{kind}")
         dm = oracle.dist(pos)
         _margin(f"{mk}:fresh-off-member", dm / oracle.tol_member)
-        if dm > oracle.tol_member:
+        if not (dm <= oracle.tol_member):
             ctx.violation(f"{label}:fresh-position-off-constraint",
                           f"created at {cp.tolist()} (off the constraint); reported position {pos.tolist()} is {dm:.3e} "
                           f"away from the declared constraint; case {_brief(case)}")
@@ -559,7 +565,7 @@ def _judge_clamp(ctx, case, clamp, oracle, create_point, ccls, kind, sweep):
             dmin = oracle.min_dist(cp)
         exc = geom.dist(pos, cp) - dmin
         _margin(f"{mk}:fresh-off-excess", exc / t["excess"])
-        if exc > t["excess"]:
+        if not (exc <= t["excess"]):
             ctx.violation(f"{label}:fresh-position-not-closest-point",
                           f"created at {cp.tolist()}: reported position {pos.tolist()} is {geom.dist(pos, cp):.9g} from "
                           f"it but the constraint comes as close as {dmin:.9g} (excess {exc:.3e} > {t['excess']:.1e}); "
@@ -578,11 +584,29 @@ def _judge_clamp(ctx, case, clamp, oracle, create_point, ccls, kind, sweep):
             return False
         dm = oracle.dist(q)
         _margin(f"{mk}:sweep", dm / oracle.tol_member)
-        if dm > oracle.tol_member:
+        if not (dm <= oracle.tol_member):
             ctx.violation(f"{label}:position-off-constraint",
                           f"params {p} (inside the bounds) -> position {q.tolist()}, {dm:.3e} away from the declared "
                           f"constraint (tolerance {oracle.tol_member:.1e}); case {_brief(case)}")
             return False
+    # -- history: the caller goes on using the arrays it created the clamp from (a loop that shifts its end points, rows of a
+    # vertex array that is edited later); the long-lived clamp keeps the constraint it was declared with
+    if caller_arrays and sweep:
+        for a in caller_arrays:
+            if isinstance(a, np.ndarray) and a.dtype.kind == "f":
+                a += 3.7 * case["size"]
+        for p in list(sweep)[-2:]:
+            ok, _ = _call(ctx, f"{label}:update_params", lambda p=p: clamp.update_params(list(p) if isinstance(p, list) else [p]))
+            if not ok:
+                return False
+            q = arr(clamp.position)
+            ctx.count(f"judged:after-caller-reused-its-arrays:{kind}")
+            dm = oracle.dist(q) if q.shape == (3,) and np.all(np.isfinite(q)) else math.inf
+            if not (dm <= oracle.tol_member):
+                ctx.violation(f"{label}:position-follows-arrays-the-caller-edited-later",
+                              f"after the caller shifted the arrays it had passed to the constructor, params {p} -> position "
+                              f"{q.tolist()}, {dm:.3e} away from the declared constraint; case {_brief(case)}")
+                return False
     return True
 
 
@@ -616,7 +640,7 @@ def run_line(ctx, case):
     ccls = case["create"]["cls"]
     if ccls == "beyond":
         ctx.count("branch:line-beyond-end")
-    _judge_clamp(ctx, case, clamp, oracle, cp, "on" if ccls == "on" else "off", "line", case["params"])
+    _judge_clamp(ctx, case, clamp, oracle, cp, "on" if ccls == "on" else "off", "line", case["params"], caller_arrays=args)
     ctx.key(["line", case["bcls"], ccls, "start-outside-bounds" if lo > 0 or hi < 0 else ""],
             _nontrivial(case["p1"], p2 - p1, case["size"]))
 
@@ -641,7 +665,7 @@ def run_radial(ctx, case):
     on = case["bounds"] is None or case["bounds"][0] <= 0 <= case["bounds"][1]
     if not on:
         ctx.count("branch:radial-bounds-exclude-0")
-    _judge_clamp(ctx, case, clamp, oracle, pos, "on" if on else "off", "radial", case["params"])
+    _judge_clamp(ctx, case, clamp, oracle, pos, "on" if on else "off", "radial", case["params"], caller_arrays=args)
     ctx.key(["radial", case["bcls"]], _nontrivial(case["center"], case["normal"], case["size"]))
 
 
@@ -656,10 +680,11 @@ def run_plane(ctx, case):
 
     oracle = _Clamp("plane", dist, dist, t["manifold"])
     cp = case["create"]["point"]
-    ok, clamp = _call(ctx, "plane:create", lambda: PlaneClamp(np.array(cp), np.array(case["point"]), np.array(case["normal"])))
+    args = (np.array(cp, dtype=float), np.array(case["point"], dtype=float), np.array(case["normal"], dtype=float))
+    ok, clamp = _call(ctx, "plane:create", lambda: PlaneClamp(*args))
     if not ok:
         return
-    _judge_clamp(ctx, case, clamp, oracle, cp, case["create"]["cls"], "plane", case["params"])
+    _judge_clamp(ctx, case, clamp, oracle, cp, case["create"]["cls"], "plane", case["params"], caller_arrays=args)
     ctx.key(["plane", case["create"]["cls"]], _nontrivial(case["point"], case["normal"], case["size"]))
 
 
@@ -787,7 +812,7 @@ def run_free(ctx, case):
         ctx.evaluated()
         ctx.count("judged:sweep:free")
         q = arr(clamp.position)
-        if q.shape != (3,) or geom.dist(q, p) > 1e-12 * max(1.0, case["size"]):
+        if q.shape != (3,) or not (geom.dist(q, p) <= 1e-12 * max(1.0, case["size"])):
             ctx.violation("free:position-differs-from-parameters", f"params {p} -> position {q!r}")
             return
     ctx.key(["free"], _nontrivial(case["position"], None, case["size"]))
@@ -810,7 +835,18 @@ def run_link(ctx, case):
         axis, origin = case["axis"], case["origin"]
         make = lambda: links.RotationLink(leader, follower, _rep(axis, "array" if rep == "array" else "list"),  # noqa: E731
                                           _rep(origin, "array" if rep == "array" else "list"))
-        targets = [geom.rotate(L0, axis, a, origin) for a in case["angles"]]
+        kdir = geom.unit(axis)
+
+        def drifted(p, slide, factor):
+            v = arr(p) - arr(origin)
+            ax = np.dot(v, kdir) * kdir
+            return arr(origin) + ax + (v - ax) * factor + kdir * slide
+
+        drift = case.get("drift") or [[0.0, 1.0]] * len(case["angles"])
+        targets = [drifted(geom.rotate(L0, axis, a, origin), *d) for a, d in zip(case["angles"], drift)]
+        for a, d, prev in zip(case["angles"], drift, [0.0] + list(case["angles"][:-1])):
+            if a == prev:
+                ctx.count("branch:rotation-leader-moved-without-turning" if d != [0.0, 1.0] else "branch:rotation-leader-not-moved")
         angles = case["angles"]
         expect = lambda cur, i: geom.rotate(F0, axis, angles[i], origin) if i >= 0 else F0  # noqa: E731
         tol_rel = 5e-7
@@ -868,7 +904,7 @@ def run_link(ctx, case):
                 sign += "-" if w < 0 else "+"
         err = float(np.linalg.norm(got - want)) if got.shape == want.shape else math.inf
         _margin(f"link:{kind}", err / (tol_rel * sc))
-        if err > tol_rel * sc:
+        if not (err <= tol_rel * sc):  # (a nan follower is a violation, too)
             ctx.violation(f"{label}:follower-relation[{'zero-move' if i < 0 else 'moved'}]",
                           f"step {i}: leader {cur.tolist()} -> follower {got.tolist()}, expected {want.tolist()} "
                           f"(|diff|={err:.3e}); case {_brief(case)}")
